@@ -22,7 +22,7 @@ def cfg_hook(rng, cfg, fam, i):
 
 
 FAMILIES = ["buffer-stress", "exact-chain", "stripe-stress", "exact-dag", "alias-stress", "buffer-stress", "exact-chain", "shared-weights", "stripe-resize", "approx-tail",
-            "buffer-stress", "mixed-width", "cpu-mix", "exact-chain-big", "lut-stress", "tiny", "exact-dag"]
+            "buffer-stress", "mixed-width", "cpu-mix", "exact-chain-big", "lut-stress", "tiny", "exact-dag", "stripe-resize"]
 
 
 def gen_cases(tier, seed):
